@@ -48,41 +48,73 @@ def d1(rep, f, c):
     site = sp_str(b.raw['span'])
     lc = f.adts['DecoderLifeCycle']
     states = {v['name'] for v in lc['variants']}
-    got = {}
-    for p in region_paths(b, 0):
-        st = [e for e in p.conds() if e[1][0] == 'variant' and e[1][1] == ('fld', ('deref', SELF), 'life_cycle')]
-        if len(st) != 1:
-            continue
-        names = st[0][2] if isinstance(st[0][2], tuple) else (st[0][2],)
-        if p.end[0] == 'diverge':
-            if p.calls():
-                out = 'panic'
-            else:
+    LC = ('fld', ('deref', SELF), 'life_cycle')
+
+    def enum_const(e, adt):
+        """name of the fieldless-enum constant e (an aggregate or a promoted constant behind a reference), else None"""
+        e = strip_ref(e)
+        while e[0] in ('deref', 'ref'):
+            e = strip_ref(e[1])
+        if e[0] == 'agg':
+            return variant_name(e)
+        if e[0] == 'cptr' and e[2] == 0:
+            import json as _json
+            tgt = _json.loads(e[1])
+            if 'mem' in tgt and str(tgt['mem']) in f.mems:
+                dv = int.from_bytes(f.mem_bytes(tgt['mem']), 'little')
+                names = [v_['name'] for v_ in adt['variants'] if v_['discr'] == dv]
+                return names[0] if len(names) == 1 else None
+        return None
+
+    def holds(e, state):
+        """does path condition e hold when life_cycle == state?  None: the condition is not about the life cycle"""
+        ce, lab = e[1], e[2]
+        if ce[0] == 'variant' and ce[1] == LC:
+            names = lab if isinstance(lab, tuple) else (lab,)
+            if None in names or 'None' in names and 'None' not in states:
+                # the otherwise edge: every state not listed on the other edges of that switch
+                listed = {variant_of_edge(b, e[3], l_) for l_, _ in switch_edges(b, e[3])} - {None}
+                return state not in listed
+            return state in names
+        if ce[0] == 'call' and (ce[1] or '').endswith(('::eq', '::ne')) and len(ce[2]) == 2 and isinstance(lab, bool):
+            a0 = strip_ref(ce[2][0])
+            while a0[0] in ('deref', 'ref'):
+                a0 = strip_ref(a0[1])
+            if a0 == LC:
+                k = enum_const(ce[2][1], lc)
+                if k is None:
+                    return 'unknown'
+                return ((state == k) == ce[1].endswith('::eq')) == lab
+        return None
+    eff = {}
+    paths = [p for p in region_paths(b, 0) if not any(e[1][0] == 'c' and isinstance(e[2], bool) and bool(e[1][1]) != e[2] for e in p.conds())]
+    for state in sorted(states):
+        outs = set()
+        for p in paths:
+            hs = [holds(e, state) for e in p.conds()]
+            if 'unknown' in hs:
+                outs.add('?')
                 continue
-        else:
+            if any(h is False for h in hs):
+                continue
+            if p.end[0] == 'diverge':
+                if [e for e in p.calls() if not (e[1] or '').endswith(('::eq', '::ne'))]:
+                    outs.add('panic')
+                elif 'unreachable' in b.blocks[p.end[1]]['t']:
+                    continue
+                else:
+                    outs.add('?')
+                continue
             rv = p.env.get(0)
             vc = [e for e in p.calls() if e[1] == 'variant::VariantDecoder::latin1_byte_compatible_up_to']
             if len(vc) == 1 and rv == ('call', vc[0][1], vc[0][2], vc[0][3]) and strip_ref(vc[0][2][0]) == ('fld', ('deref', SELF), 'variant') and strip_ref(vc[0][2][1]) == BUF:
-                out = 'variant'
-            elif rv is not None and variant_name(rv) == 'None' and not p.calls():
-                out = 'None'
+                outs.add('variant')
+            elif rv is not None and variant_name(rv) == 'None' and not [e for e in p.calls() if not (e[1] or '').endswith(('::eq', '::ne'))]:
+                outs.add('None')
             else:
-                out = '?'
-        for n in names:
-            got[n] = out
-    # the wildcard arm covers the states not listed explicitly
-    listed = {n for n in got if n not in ('None', None)}
-    other = got.get('None') if 'None' in got else None
+                outs.add('?')
+        eff[state] = outs.pop() if len(outs) == 1 else ('missing' if not outs else '+'.join(sorted(outs)))
     want = {s: ('variant' if s == 'Converting' else 'panic' if s == 'Finished' else 'None') for s in states}
-    # variant_of_edge returns None for a multi-state otherwise edge: map it
-    eff = {}
-    for s in states:
-        if s in got:
-            eff[s] = got[s]
-        elif None in got:
-            eff[s] = got[None]
-        else:
-            eff[s] = 'missing'
     rep.ob('C19-D1', fn, eff == want, 'life-cycle gate differs: %r' % {s: eff[s] for s in sorted(states) if eff[s] != want[s]}, site, {'gate': {s: eff[s] for s in sorted(states)}}, c)
 
 
